@@ -39,10 +39,10 @@ def check(chk, repo):
     # (a private helper that only the constructor calls is part of the constructor)
     callers = {}
     for g in repo.all_functions():
-        for n in ast.walk(g.node):
-            if isinstance(n, ast.Call) and isinstance(n.func, ast.Attribute) and isinstance(n.func.value, ast.Name) \
-                    and n.func.value.id == "self":
-                callers.setdefault(n.func.attr, set()).add(g.qual)
+        for nd in ast.walk(g.node):
+            if isinstance(nd, ast.Call) and isinstance(nd.func, ast.Attribute) and isinstance(nd.func.value, ast.Name) \
+                    and nd.func.value.id == "self":
+                callers.setdefault(nd.func.attr, set()).add(g.qual)
     for fi in repo.all_functions():
         if fi.cls is None or fi.qual in ("OPF.__init__", "OPF.distance", "OPF.distance_fn"):
             continue
